@@ -18,9 +18,11 @@ pub enum Route {
     AttrsLast,
     /// declarations first, then the children (appended), then the attributes
     DeclsChildrenAttrs,
+    /// attributes first, then the declarations, then the children
+    AttrsDeclsChildren,
 }
 
-pub const ROUTES: [Route; 6] = [Route::TopDown, Route::BottomUp, Route::Prepend, Route::InsertBefore, Route::AttrsLast, Route::DeclsChildrenAttrs];
+pub const ROUTES: [Route; 7] = [Route::TopDown, Route::BottomUp, Route::Prepend, Route::InsertBefore, Route::AttrsLast, Route::DeclsChildrenAttrs, Route::AttrsDeclsChildren];
 
 #[derive(Clone, Copy, Debug, PartialEq, Eq)]
 pub enum AttrStyle {
@@ -30,7 +32,11 @@ pub enum AttrStyle {
     Node,
     /// any_append of freshly created nodes
     Any,
+    /// the set_namespace / set_attribute shorthands
+    Set,
 }
+
+pub const STYLES: [AttrStyle; 4] = [AttrStyle::Map, AttrStyle::Node, AttrStyle::Any, AttrStyle::Set];
 
 pub fn new_leaf(xot: &mut Xot, a: &ANode) -> Node {
     match a.kind {
@@ -64,6 +70,9 @@ fn add_abnormal_part(xot: &mut Xot, e: Node, a: &ANode, style: AttrStyle, h: &mu
             AttrStyle::Map => {
                 xot.namespaces_mut(e).insert(pid, nid);
             }
+            AttrStyle::Set => {
+                xot.set_namespace(e, pid, nid);
+            }
             AttrStyle::Node => {
                 let n = xot.new_namespace_node(pid, nid);
                 xot.append_namespace_node(e, n)
@@ -82,6 +91,9 @@ fn add_abnormal_part(xot: &mut Xot, e: Node, a: &ANode, style: AttrStyle, h: &mu
         match style {
             AttrStyle::Map => {
                 xot.attributes_mut(e).insert(name, v.clone());
+            }
+            AttrStyle::Set => {
+                xot.set_attribute(e, name, v.clone());
             }
             AttrStyle::Node => {
                 let n = xot.new_attribute_node(name, v.clone());
@@ -134,14 +146,26 @@ fn build_rec(xot: &mut Xot, a: &ANode, route: Route, style: AttrStyle) -> Result
         attrs: Vec::new(),
         children: Vec::new(),
     };
-    let late = matches!(route, Route::AttrsLast | Route::DeclsChildrenAttrs);
+    let late = matches!(route, Route::AttrsLast | Route::DeclsChildrenAttrs | Route::AttrsDeclsChildren);
     if a.kind == AKind::Elem && !late {
         add_abnormal(xot, node, a, style, &mut h)?;
+    }
+    if a.kind == AKind::Elem && route == Route::AttrsDeclsChildren {
+        add_abnormal_part(xot, node, a, style, &mut h, false, true)?;
+        add_abnormal_part(xot, node, a, style, &mut h, true, false)?;
     }
     if a.kind == AKind::Elem && route == Route::DeclsChildrenAttrs {
         add_abnormal_part(xot, node, a, style, &mut h, true, false)?;
     }
     match route {
+        Route::AttrsDeclsChildren => {
+            for c in &a.children {
+                let hc = build_rec(xot, c, route, style)?;
+                xot.append(node, hc.node)
+                    .map_err(|e| format!("append failed: {:?}", e))?;
+                h.children.push(hc);
+            }
+        }
         Route::AttrsLast | Route::DeclsChildrenAttrs => {
             for c in &a.children {
                 let hc = build_rec(xot, c, route, style)?;
